@@ -261,7 +261,7 @@ OPTS = [{}, {"filter_unused_linenum": True}, {"add_suffix": False}, {"filter_unu
 
 
 def cases(tier, seed):
-    n = 2500 if tier == "quick" else 60000
+    n = 2500 if tier == "quick" else 200000
     for i in range(n):
         yield {"kind": "graph", "seed": seed * 48271 + i, "opts": OPTS[i % len(OPTS)], "sample": i % 700 == 0}
     whats = ["missing-target", "line-too-large", "two-on-err", "two-on-brk"]
